@@ -198,6 +198,7 @@ func VH_c16_run_once_concurrent() {
 		e = lazy.Call(mz)
 	}
 	tasks := zz.Bound("getters", 2, 3)
+	zz.Config("preempt", zz.Bound("preempt", -1, 3)) // 2 getters: all schedules; 3 getters: context-bounded
 	res := make([]int, tasks)
 	got := make([]bool, tasks)
 	for i := 0; i < tasks; i++ {
